@@ -7,6 +7,7 @@ import (
 	"fmt"
 	"math/big"
 	"os"
+	"sort"
 	"strings"
 	"time"
 
@@ -48,6 +49,12 @@ var c28Monetaries = []named{
 	{"fraction", "USD 1.5"}, {"slash-only-asset", "/ 1"}, {"digit-asset", "9 1"}, {"trailing-slash-asset", "USD/ 1"},
 }
 
+// monetary expressions whose value is only known at run time
+var c28Computed = []named{
+	{"sum", "[USD 1] + [USD 5]"}, {"positive-difference", "[USD 5] - [USD 1]"}, {"zero-difference", "[USD 5] - [USD 5]"},
+	{"negative-difference", "[USD 1] - [USD 5]"}, {"negative-literal", "[USD -1]"},
+}
+
 var c28Amounts = []named{{"zero", "0"}, {"negative", "-1"}, {"fraction", "1.5"}, {"null", "null"}, {"exponent", "1e3"}, {"string", `"5"`}, {"huge", "1" + strings.Repeat("0", 40)}}
 
 // ---- cases ------------------------------------------------------------------------------
@@ -61,7 +68,41 @@ type c28case struct {
 	Reqs   []Req  `json:"reqs"`
 }
 
-func (c c28case) sig() string { return fmt.Sprintf("C28:%s:%s:%s", c.Path, c.Family, c.Value) }
+// id identifies the executed input (distinct count, samples, notes). It is NOT the
+// violation signature.
+func (c c28case) id() string { return fmt.Sprintf("C28:%s:%s:%s", c.Path, c.Family, c.Value) }
+
+// c28Site maps a request path of the menu to the piece of the ledger that is responsible
+// for refusing an ill-formed posting on that path (one root cause = one site):
+//   - machine, v1-machine, template-machine: the Numscript machine (compiler literals,
+//     variables, meta()) — the route only differs in how the script text arrives;
+//   - interpreter, template-interpreter: the experimental interpreter;
+//   - postings-v1: the v1 handler's own Postings.Validate call;
+//   - postings-v2, postings-bulk: bulking.TransactionRequest.ToCore (shared by both);
+//   - import-forged-hash, import-no-hash-ledger: DefaultController.importLog (the hash chain
+//     is valid or not checked, so only a validation of the payload can refuse the log);
+//   - import-stale-hash: a log whose hash does not match was accepted by a hashed ledger.
+func c28Site(path string) string {
+	switch path {
+	case "machine", "v1-machine", "template-machine":
+		return "machine"
+	case "interpreter", "template-interpreter":
+		return "interpreter"
+	case "postings-v2", "postings-bulk":
+		return "postings-v2"
+	case "import-forged-hash", "import-no-hash-ledger":
+		return "import"
+	}
+	return path
+}
+
+// sig is the structural signature of a violation found by this case:
+// C28:<site>:<origin of the value>:<ill-formed posting fields>. The value class (which
+// edge value it was) and the route are in the description and in the replay, not in the
+// signature: they do not distinguish root causes.
+func (c c28case) sig(kinds []string) string {
+	return fmt.Sprintf("C28:%s:%s:%s", c28Site(c.Path), c.Family, strings.Join(kinds, "+"))
+}
 
 func scriptReq(api, ledgerName, script string, vars map[string]string, runtime string) Req {
 	body := map[string]any{"script": map[string]any{"plain": script}}
@@ -94,7 +135,7 @@ func send(asset, amount, src, dst string) string {
 	return fmt.Sprintf("send [%s %s] (\n source = %s\n destination = %s\n)", asset, amount, src, dst)
 }
 
-func c28Cases(importBase string) ([]c28case, error) {
+func c28Cases(bases c28Bases) ([]c28case, error) {
 	var out []c28case
 	for _, rt := range c28Runtimes {
 		// A. literal assets
@@ -116,6 +157,10 @@ func c28Cases(importBase string) ([]c28case, error) {
 		}
 		for _, m := range c28Monetaries {
 			out = append(out, c28case{rt.Path, "var-monetary", m.Name, []Req{scriptReq(rt.API, "c28", "vars {\n monetary $m\n}\nsend $m (\n source = @world\n destination = @dst\n)", map[string]string{"m": m.Val}, rt.Runtime)}})
+		}
+		// C'. amounts computed by the script (monetary arithmetic, amounts from a number variable)
+		for _, x := range c28Computed {
+			out = append(out, c28case{rt.Path, "computed-amount", x.Name, []Req{scriptReq(rt.API, "c28", "send "+x.Val+" (\n source = @world\n destination = @dst\n)", nil, rt.Runtime)}})
 		}
 		// D. metadata-sourced values: the stored metadata value is free text
 		setMeta := func(v string) Req { return post("/v2/c28/accounts/src/metadata", encJSON(map[string]any{"k": v})) }
@@ -166,8 +211,17 @@ func c28Cases(importBase string) ([]c28case, error) {
 			}
 			return post(p.URL, b)
 		}
+		// A source other than world has no funds: the write must be refused because the source is
+		// ill-formed, not for lack of funds. v2 and bulk take "force" in the body (unbounded
+		// overdraft for every source); v1 has no such switch, so its source cases move nothing.
+		srcAmount := "10"
+		forced := func(b string) string { return strings.TrimSuffix(b, "}") + `,"force":true}` }
+		if p.Path == "postings-v1" {
+			srcAmount = "0"
+			forced = func(b string) string { return b }
+		}
 		for _, a := range c28Accounts {
-			out = append(out, c28case{p.Path, "source", a.Name, []Req{wrap(postingBody(a.Val, "dst", "USD", "10")).withQuery("force", "true")}})
+			out = append(out, c28case{p.Path, "source", a.Name, []Req{wrap(forced(postingBody(a.Val, "dst", "USD", srcAmount)))}})
 			out = append(out, c28case{p.Path, "destination", a.Name, []Req{wrap(postingBody("world", a.Val, "USD", "10"))}})
 		}
 		for _, a := range c28Assets {
@@ -176,136 +230,236 @@ func c28Cases(importBase string) ([]c28case, error) {
 		for _, a := range c28Amounts {
 			out = append(out, c28case{p.Path, "amount", a.Name, []Req{wrap(postingBody("world", "dst", "USD", a.Val))}})
 		}
+		// the ill-formed posting is not the first one
+		second := func(src, dst, asset, amount string, force ...bool) Req {
+			b := postingBody("world", "dst", "USD", "10")
+			b = strings.TrimSuffix(b, "]}") + "," + strings.TrimSuffix(strings.TrimPrefix(postingBody(src, dst, asset, amount), `{"postings":[`), "]}") + "]}"
+			if len(force) > 0 {
+				b = forced(b)
+			}
+			return wrap(b)
+		}
+		for _, a := range c28Accounts {
+			out = append(out, c28case{p.Path, "second-posting-source", a.Name, []Req{second(a.Val, "dst", "USD", srcAmount, true)}})
+			out = append(out, c28case{p.Path, "second-posting-destination", a.Name, []Req{second("world", a.Val, "USD", "10")}})
+		}
+		for _, a := range c28Assets {
+			out = append(out, c28case{p.Path, "second-posting-asset", a.Name, []Req{second("world", "dst", a.Val, "10")}})
+		}
+		for _, a := range c28Amounts {
+			out = append(out, c28case{p.Path, "second-posting-amount", a.Name, []Req{second("world", "dst", "USD", a.Val)}})
+		}
 	}
 	// H. import of a log stream with an ill-formed posting
-	base, err := parseJSON(importBase)
-	if err != nil {
-		return nil, fmt.Errorf("import base log: %v", err)
+	type target struct {
+		famPrefix string
+		stream    []string // exported log lines
+		line      int      // the log that is mutated (the ones before it are sent as exported)
+		posting   int
 	}
-	postingPtr := ptr{"data", "transaction", "postings", "0"}
-	importCase := func(family, value string, field string, repl any) {
-		mut := replaceAt(base, append(append(ptr{}, postingPtr...), field), repl, false)
-		// keep the log self-consistent, as a careful client would: the volume maps of the
-		// transaction are keyed by account and asset
-		if nv, ok := repl.(string); ok {
-			old, _ := getAt(base, append(append(ptr{}, postingPtr...), field)).(string)
-			for _, vm := range []string{"postCommitVolumes", "postCommitEffectiveVolumes", "preCommitVolumes", "preCommitEffectiveVolumes"} {
-				vp := ptr{"data", "transaction", vm}
-				vols, _ := getAt(mut, vp).(map[string]any)
-				if vols == nil {
-					continue
-				}
-				nvols := map[string]any{}
-				for acc, byAsset := range vols {
-					if field == "asset" {
-						na := map[string]any{}
-						if m, ok := byAsset.(map[string]any); ok {
-							for as, v := range m {
-								if as == old {
-									as = nv
+	staleSame := map[string]bool{}
+	targets := []target{
+		{"", bases.Single, 0, 0},                     // NEW_TRANSACTION, its only posting
+		{"second-posting-", bases.TwoPostings, 0, 1}, // NEW_TRANSACTION, the second of two postings
+		{"revert-", bases.Revert, 1, 0},              // REVERTED_TRANSACTION: the posting of the reverting transaction
+	}
+	for _, tg := range targets {
+		var prefix string
+		var prev *ledger.Log
+		for i := 0; i < tg.line; i++ {
+			prefix += tg.stream[i] + "\n"
+			var pl ledger.Log
+			if err := json.Unmarshal([]byte(tg.stream[i]), &pl); err != nil {
+				return nil, fmt.Errorf("import base log %d: %v", i, err)
+			}
+			prev = &pl
+		}
+		base, err := parseJSON(tg.stream[tg.line])
+		if err != nil {
+			return nil, fmt.Errorf("import base log: %v", err)
+		}
+		postingPtr := ptr{"data", "transaction", "postings", fmt.Sprint(tg.posting)}
+		if _, ok := getAt(base, postingPtr).(map[string]any); !ok {
+			return nil, fmt.Errorf("import base log %s has no posting at %s", tg.stream[tg.line], postingPtr)
+		}
+		importCase := func(family, value string, field string, repl any) {
+			family = tg.famPrefix + family
+			mut := replaceAt(base, append(append(ptr{}, postingPtr...), field), repl, false)
+			// keep a one-posting log self-consistent, as a careful client would: the volume maps of
+			// the transaction are keyed by account and asset (they are neither hashed nor used by the
+			// import, which recomputes them)
+			if nv, ok := repl.(string); ok && tg.famPrefix == "" {
+				old, _ := getAt(base, append(append(ptr{}, postingPtr...), field)).(string)
+				for _, vm := range []string{"postCommitVolumes", "postCommitEffectiveVolumes", "preCommitVolumes", "preCommitEffectiveVolumes"} {
+					vp := ptr{"data", "transaction", vm}
+					vols, _ := getAt(mut, vp).(map[string]any)
+					if vols == nil {
+						continue
+					}
+					nvols := map[string]any{}
+					for acc, byAsset := range vols {
+						if field == "asset" {
+							na := map[string]any{}
+							if m, ok := byAsset.(map[string]any); ok {
+								for as, v := range m {
+									if as == old {
+										as = nv
+									}
+									na[as] = v
 								}
-								na[as] = v
 							}
+							nvols[acc] = na
+						} else {
+							if acc == old {
+								acc = nv
+							}
+							nvols[acc] = byAsset
 						}
-						nvols[acc] = na
-					} else {
-						if acc == old {
-							acc = nv
-						}
-						nvols[acc] = byAsset
+					}
+					mut = replaceAt(mut, vp, nvols, false)
+				}
+			}
+			if tg.famPrefix != "" {
+				// the volume maps of the transaction are derived data (neither hashed nor used by the
+				// import, which recomputes them): a client that edits a posting of a larger log leaves
+				// them out rather than recomputing them. (Leaving stale maps in makes
+				// Transaction.MarshalJSON dereference a nil volume and kills the process: a crash is
+				// C38's business, and nothing can be inspected afterwards.)
+				for _, vm := range []string{"postCommitVolumes", "postCommitEffectiveVolumes", "preCommitVolumes", "preCommitEffectiveVolumes"} {
+					if getAt(mut, ptr{"data", "transaction", vm}) != nil {
+						mut = replaceAt(mut, ptr{"data", "transaction", vm}, nil, true)
 					}
 				}
-				mut = replaceAt(mut, vp, nvols, false)
+			}
+			raw := encJSON(mut) + "\n"
+			imp := func(ledgerName, body string) Req {
+				return Req{Method: "POST", Path: "/v2/" + ledgerName + "/logs/import", Headers: jh("application/octet-stream"), Body: body}
+			}
+			// as exported (the hash no longer matches), into a hashed and into an unhashed ledger
+			if _, seen := staleSame["import-stale-hash:"+family]; !seen {
+				staleSame["import-stale-hash:"+family] = false
+			}
+			if old, ok := getAt(base, append(append(ptr{}, postingPtr...), field)).(string); ok && old == repl {
+				staleSame["import-stale-hash:"+family] = true // the "mutation" is the identity: the exported hash still matches
+			}
+			out = append(out, c28case{"import-stale-hash", family, value, []Req{imp("c28imp", prefix+raw)}})
+			out = append(out, c28case{"import-no-hash-ledger", family, value, []Req{imp("c28impnh", prefix+raw)}})
+			// with the hash recomputed the way any client can (Log.ComputeHash is a public algorithm)
+			var l ledger.Log
+			if err := json.Unmarshal([]byte(raw), &l); err == nil {
+				hash := func() (h []byte) {
+					defer func() { _ = recover() }()
+					l.Hash = nil
+					l.ComputeHash(prev)
+					return l.Hash
+				}()
+				if hash != nil {
+					// the JSON text is written by hand (the client is not bound to Go's marshaller)
+					forged := encJSON(replaceAt(mut, ptr{"hash"}, base64.StdEncoding.EncodeToString(hash), false)) + "\n"
+					out = append(out, c28case{"import-forged-hash", family, value, []Req{imp("c28imp", prefix+forged)}})
+				}
 			}
 		}
-		raw := encJSON(mut) + "\n"
-		imp := func(ledgerName, body string) Req {
-			return Req{Method: "POST", Path: "/v2/" + ledgerName + "/logs/import", Headers: jh("application/octet-stream"), Body: body}
+		for _, a := range c28Accounts {
+			importCase("source", a.Name, "source", a.Val)
+			importCase("destination", a.Name, "destination", a.Val)
 		}
-		// as exported (the hash no longer matches), into a hashed and into an unhashed ledger
-		out = append(out, c28case{"import-stale-hash", family, value, []Req{imp("c28imp", raw)}})
-		out = append(out, c28case{"import-no-hash-ledger", family, value, []Req{imp("c28impnh", raw)}})
-		// with the hash recomputed the way any client can (Log.ComputeHash is a public algorithm)
-		var l ledger.Log
-		if err := json.Unmarshal([]byte(raw), &l); err == nil {
-			hash := func() (h []byte) {
-				defer func() { _ = recover() }()
-				l.Hash = nil
-				l.ComputeHash(nil)
-				return l.Hash
-			}()
-			if hash != nil {
-				// the JSON text is written by hand (the client is not bound to Go's marshaller)
-				forged := encJSON(replaceAt(mut, ptr{"hash"}, base64.StdEncoding.EncodeToString(hash), false)) + "\n"
-				out = append(out, c28case{"import-forged-hash", family, value, []Req{imp("c28imp", forged)}})
-			}
+		for _, a := range c28Assets {
+			importCase("asset", a.Name, "asset", a.Val)
+		}
+		for _, a := range c28Amounts {
+			importCase("amount", a.Name, "amount", rawJSON(a.Val))
 		}
 	}
-	for _, a := range c28Accounts {
-		importCase("source", a.Name, "source", a.Val)
-		importCase("destination", a.Name, "destination", a.Val)
-	}
-	for _, a := range c28Assets {
-		importCase("asset", a.Name, "asset", a.Val)
-	}
-	for _, a := range c28Amounts {
-		importCase("amount", a.Name, "amount", rawJSON(a.Val))
+	c28NoAccept = map[string]string{}
+	for k, same := range staleSame {
+		if !same {
+			c28NoAccept[k] = "every value of the menu differs from the exported one, so the exported hash cannot match the log"
+		}
 	}
 	return out, nil
 }
 
 // ---- oracle -----------------------------------------------------------------------------
 
-// illFormed lists what is wrong with one stored posting (nothing = well-formed).
-func illFormed(src, dst, asset any, amount any) []string {
-	var bad []string
+// c28defect is one ill-formed field of one stored posting. Kind is the posting field
+// (source | destination | asset | amount), or, for what cannot be read as a posting list at
+// all, "unreadable".
+type c28defect struct{ Kind, Msg string }
+
+// illFormed lists what is wrong with one stored posting (nothing = well-formed). It states
+// exactly the three clauses of the property: source and destination match the
+// account-address pattern (pkg/accounts), the asset matches the asset pattern (pkg/assets),
+// the amount is a non-negative integer.
+func illFormed(src, dst, asset any, amount any) []c28defect {
+	var bad []c28defect
 	s, ok := src.(string)
 	if !ok || !accounts.Regexp.MatchString(s) {
-		bad = append(bad, fmt.Sprintf("source %q does not match the account pattern", src))
+		bad = append(bad, c28defect{"source", fmt.Sprintf("source %q does not match the account pattern", src)})
 	}
 	d, ok := dst.(string)
 	if !ok || !accounts.Regexp.MatchString(d) {
-		bad = append(bad, fmt.Sprintf("destination %q does not match the account pattern", dst))
+		bad = append(bad, c28defect{"destination", fmt.Sprintf("destination %q does not match the account pattern", dst)})
 	}
 	a, ok := asset.(string)
 	if !ok || !assets.IsValid(a) {
-		bad = append(bad, fmt.Sprintf("asset %q does not match the asset pattern", asset))
+		bad = append(bad, c28defect{"asset", fmt.Sprintf("asset %q does not match the asset pattern", asset)})
 	}
 	n, ok := amount.(json.Number)
 	if !ok {
-		bad = append(bad, fmt.Sprintf("amount %v is not a number", amount))
+		bad = append(bad, c28defect{"amount", fmt.Sprintf("amount %v is not a number", amount)})
 	} else if z, ok := new(big.Int).SetString(string(n), 10); !ok || z.Sign() < 0 {
-		bad = append(bad, fmt.Sprintf("amount %s is not a non-negative integer", n))
+		bad = append(bad, c28defect{"amount", fmt.Sprintf("amount %s is not a non-negative integer", n)})
 	}
 	return bad
 }
 
 // c28Inspect reads every transaction of every ledger through the API (following cursors)
-// and the stored rows by raw SQL; it returns the defects and the number of postings seen.
-func c28Inspect(e *Env) (defects []string, postings int, engine string) {
+// and the stored rows by raw SQL; it returns the defects, the number of postings seen
+// through ListTransactions and the number of transactions rows seen by SQL.
+//
+// The property speaks about the postings of committed transactions, so a transaction with
+// an EMPTY posting list satisfies it (nothing to be ill-formed); only a posting list that
+// cannot be read as a JSON array is reported.
+func c28Inspect(e *Env) (defects []c28defect, postings, rows int, engine string) {
+	listFail := ""
+	add := func(where string, ds []c28defect) {
+		for _, d := range ds {
+			defects = append(defects, c28defect{d.Kind, where + ": " + d.Msg})
+		}
+	}
 	for _, l := range c28Ledgers {
 		r := get("/v2/"+l.Name+"/transactions", KV{"pageSize", "100"})
-		for page := 0; page < 50; page++ {
+		for page := 0; ; page++ {
+			if page == 50 {
+				return nil, 0, 0, "listing the transactions of " + l.Name + " did not end after 50 pages"
+			}
 			resp, _ := e.Do(r)
 			if isEngine(resp) {
-				return nil, 0, "pgsim engine error while listing: " + resp.short()
+				return nil, 0, 0, "pgsim engine error while listing: " + resp.short()
 			}
 			if resp.Status != 200 {
-				defects = append(defects, fmt.Sprintf("listing transactions of %s failed after a successful write: %s", l.Name, resp.short()))
+				// what was stored cannot be observed at the property's observation point; the rows are
+				// still inspected by SQL below. A failing listing over well-formed rows is not a C28
+				// matter (the statement is about what is stored), but then nothing was observed
+				// through the API: engine error, not a violation.
+				listFail = fmt.Sprintf("listing transactions of %s failed after a successful write: %s", l.Name, resp.short())
 				break
 			}
 			b := decode(resp.Body)
-			txs, _ := jat(b, "cursor", "data").([]any)
+			txs, ok := jat(b, "cursor", "data").([]any)
+			if !ok {
+				return nil, 0, 0, "ListTransactions answer without cursor.data: " + resp.short()
+			}
 			for _, tx := range txs {
-				ps, _ := jat(tx, "postings").([]any)
-				if len(ps) == 0 {
-					defects = append(defects, fmt.Sprintf("%s tx %v has no postings", l.Name, jat(tx, "id")))
+				ps, ok := jat(tx, "postings").([]any)
+				if !ok {
+					defects = append(defects, c28defect{"unreadable", fmt.Sprintf("ListTransactions(%s) tx %v: postings is not an array", l.Name, jat(tx, "id"))})
 				}
 				for i, p := range ps {
 					postings++
-					for _, m := range illFormed(jat(p, "source"), jat(p, "destination"), jat(p, "asset"), jat(p, "amount")) {
-						defects = append(defects, fmt.Sprintf("ListTransactions(%s) tx %v posting %d: %s", l.Name, jat(tx, "id"), i, m))
-					}
+					add(fmt.Sprintf("ListTransactions(%s) tx %v posting %d", l.Name, jat(tx, "id"), i),
+						illFormed(jat(p, "source"), jat(p, "destination"), jat(p, "asset"), jat(p, "amount")))
 				}
 			}
 			next, _ := jat(b, "cursor", "next").(string)
@@ -318,48 +472,63 @@ func c28Inspect(e *Env) (defects []string, postings int, engine string) {
 	// what is stored, by raw SQL
 	ctx := context.Background()
 	for _, bucket := range []string{"_default"} {
-		rows, err := e.W.SQL.QueryContext(ctx, `SELECT ledger, id, postings FROM "`+bucket+`".transactions ORDER BY ledger, id`)
+		qrows, err := e.W.SQL.QueryContext(ctx, `SELECT ledger, id, postings FROM "`+bucket+`".transactions ORDER BY ledger, id`)
 		if err != nil {
-			return nil, 0, "harness SQL: " + err.Error()
+			return nil, 0, 0, "harness SQL: " + err.Error()
 		}
-		for rows.Next() {
+		for qrows.Next() {
 			var l, id string
 			var raw []byte
-			if err := rows.Scan(&l, &id, &raw); err != nil {
-				rows.Close()
-				return nil, 0, "harness SQL scan: " + err.Error()
+			if err := qrows.Scan(&l, &id, &raw); err != nil {
+				qrows.Close()
+				return nil, 0, 0, "harness SQL scan: " + err.Error()
 			}
-			ps, _ := decode(string(raw)).([]any)
+			rows++
+			ps, ok := decode(string(raw)).([]any)
+			if !ok {
+				defects = append(defects, c28defect{"unreadable", fmt.Sprintf("table %s.transactions (%s tx %s): postings is not a JSON array", bucket, l, id)})
+			}
 			for i, p := range ps {
-				for _, m := range illFormed(jat(p, "source"), jat(p, "destination"), jat(p, "asset"), jat(p, "amount")) {
-					defects = append(defects, fmt.Sprintf("table %s.transactions (%s tx %s) posting %d: %s", bucket, l, id, i, m))
-				}
+				add(fmt.Sprintf("table %s.transactions (%s tx %s) posting %d", bucket, l, id, i),
+					illFormed(jat(p, "source"), jat(p, "destination"), jat(p, "asset"), jat(p, "amount")))
 			}
 		}
-		rows.Close()
-		rows, err = e.W.SQL.QueryContext(ctx, `SELECT ledger, accounts_address, asset, amount FROM "`+bucket+`".moves ORDER BY seq`)
+		qrows.Close()
+		// the moves are the per-account copy of the postings (MOVES_HISTORY=ON)
+		qrows, err = e.W.SQL.QueryContext(ctx, `SELECT ledger, is_source, accounts_address, asset, amount FROM "`+bucket+`".moves ORDER BY seq`)
 		if err != nil {
-			return nil, 0, "harness SQL: " + err.Error()
+			return nil, 0, 0, "harness SQL: " + err.Error()
 		}
-		for rows.Next() {
+		for qrows.Next() {
 			var l, addr, asset, amt string
-			if err := rows.Scan(&l, &addr, &asset, &amt); err != nil {
-				rows.Close()
-				return nil, 0, "harness SQL scan: " + err.Error()
+			var isSource bool
+			if err := qrows.Scan(&l, &isSource, &addr, &asset, &amt); err != nil {
+				qrows.Close()
+				return nil, 0, 0, "harness SQL scan: " + err.Error()
+			}
+			side := "destination"
+			if isSource {
+				side = "source"
 			}
 			if !accounts.Regexp.MatchString(addr) {
-				defects = append(defects, fmt.Sprintf("table %s.moves (%s): account %q does not match the account pattern", bucket, l, addr))
+				defects = append(defects, c28defect{side, fmt.Sprintf("table %s.moves (%s): %s account %q does not match the account pattern", bucket, l, side, addr)})
 			}
 			if !assets.IsValid(asset) {
-				defects = append(defects, fmt.Sprintf("table %s.moves (%s): asset %q does not match the asset pattern", bucket, l, asset))
+				defects = append(defects, c28defect{"asset", fmt.Sprintf("table %s.moves (%s): asset %q does not match the asset pattern", bucket, l, asset)})
 			}
 			if z, ok := new(big.Int).SetString(amt, 10); !ok || z.Sign() < 0 {
-				defects = append(defects, fmt.Sprintf("table %s.moves (%s): amount %s is not a non-negative integer", bucket, l, amt))
+				defects = append(defects, c28defect{"amount", fmt.Sprintf("table %s.moves (%s): amount %s is not a non-negative integer", bucket, l, amt)})
 			}
 		}
-		rows.Close()
+		qrows.Close()
 	}
-	return defects, postings, ""
+	if listFail != "" {
+		if len(defects) == 0 {
+			return nil, 0, 0, listFail + " (the stored rows are well-formed)"
+		}
+		defects = append(defects, c28defect{"unreadable", listFail})
+	}
+	return defects, postings, rows, ""
 }
 
 func execC28(boot *pgsim.DB, c *c28case) caseResult {
@@ -371,11 +540,11 @@ func execC28(boot *pgsim.DB, c *c28case) caseResult {
 	for i, r := range c.Reqs {
 		resp, ok := e.Do(r)
 		if !ok {
-			res.Engine = fmt.Sprintf("%s: request %d not constructible: %s", c.sig(), i, r)
+			res.Engine = fmt.Sprintf("%s: request %d not constructible: %s", c.id(), i, r)
 			return res
 		}
 		if isEngine(resp) {
-			res.Engine = fmt.Sprintf("%s: pgsim engine error: %s -> %s", c.sig(), r, resp.short())
+			res.Engine = fmt.Sprintf("%s: pgsim engine error: %s -> %s", c.id(), r, resp.short())
 			return res
 		}
 		trace = append(trace, fmt.Sprintf("%s -> %s", r, resp.short()))
@@ -386,46 +555,100 @@ func execC28(boot *pgsim.DB, c *c28case) caseResult {
 			}
 			break
 		}
-		defects, n, eng := c28Inspect(e)
+		defects, n, rows, eng := c28Inspect(e)
 		if eng != "" {
-			res.Engine = c.sig() + ": " + eng
+			res.Engine = c.id() + ": " + eng
 			return res
 		}
 		res.Counts["postings_inspected"] += int64(n)
+		if i == len(c.Reqs)-1 && (n == 0 || rows == 0) {
+			// the last request of every case is the write under test: a 2xx answer that left no
+			// posting to inspect means the oracle looked at nothing
+			res.Engine = fmt.Sprintf("%s: vacuous: the write %s succeeded but no stored posting was found (ListTransactions %d, SQL rows %d)", c.id(), r, n, rows)
+			return res
+		}
 		if len(defects) > 0 {
-			if len(defects) > 6 {
-				defects = defects[:6]
+			kindSet := map[string]bool{}
+			var msgs []string
+			for _, d := range defects {
+				kindSet[d.Kind] = true
+				if len(msgs) < 6 {
+					msgs = append(msgs, d.Msg)
+				}
 			}
-			res.Viol = append(res.Viol, violRec{Sig: c.sig(), What: fmt.Sprintf("after the successful request %s: %s", r, strings.Join(defects, "; ")),
-				Replay: map[string]any{"ledgers": c28Ledgers, "requests": c.Reqs, "trace": trace}})
+			var kinds []string
+			for _, k := range []string{"source", "destination", "asset", "amount", "unreadable"} {
+				if kindSet[k] {
+					kinds = append(kinds, k)
+				}
+			}
+			res.Viol = append(res.Viol, violRec{Sig: c.sig(kinds), What: fmt.Sprintf("case %s: after the successful request %s: %s", c.id(), r, strings.Join(msgs, "; ")),
+				Replay: map[string]any{"case": c.id(), "ledgers": c28Ledgers, "requests": c.Reqs, "trace": trace}})
 			break
 		}
 	}
 	if lastOK {
 		res.Counts["accepted"]++
 		res.Counts["accepted:"+c.Path]++
+		res.Counts["accepted:"+c.Path+":"+c.Family]++
 	} else {
 		res.Counts["rejected"]++
+		res.Counts["rejected:"+c.Path]++
+		res.Counts["rejected:"+c.Path+":"+c.Family]++
 	}
-	res.Key = c.sig()
-	res.Sample = map[string]any{"case": c.sig(), "accepted": lastOK}
+	res.Key = c.id()
+	res.Sample = map[string]any{"case": c.id(), "accepted": lastOK}
 	return res
 }
 
 func bootC28() (*pgsim.DB, error) { return lx.Boot(context.Background(), c28Ledgers) }
 
-// c28ImportBase produces one exported NEW_TRANSACTION log (world -> dst, USD 10).
-func c28ImportBase(boot *pgsim.DB) (string, error) {
+// c28Bases are exported log streams (one JSON log per element) that the import cases mutate.
+type c28Bases struct {
+	Single      []string // NEW_TRANSACTION (world -> dst, USD 10)
+	TwoPostings []string // NEW_TRANSACTION (world -> dst USD 10, world -> dst2 EUR 5)
+	Revert      []string // NEW_TRANSACTION (world -> dst, USD 10), REVERTED_TRANSACTION
+}
+
+func c28Export(boot *pgsim.DB, wantTypes []string, reqs ...Req) ([]string, error) {
 	e := NewEnv(boot.Clone())
 	defer e.Close()
-	if resp, _ := e.Do(post("/v2/c28/transactions", `{"postings":[{"source":"world","destination":"dst","asset":"USD","amount":10}],"timestamp":"2023-01-01T00:00:00Z"}`)); resp.Status != 200 {
-		return "", fmt.Errorf("import base: %s", resp.short())
+	for _, r := range reqs {
+		if resp, _ := e.Do(r); resp.Status < 200 || resp.Status > 299 {
+			return nil, fmt.Errorf("import base: %s -> %s", r, resp.short())
+		}
 	}
 	resp, _ := e.Do(post("/v2/c28/logs/export", ``))
 	if resp.Status != 200 {
-		return "", fmt.Errorf("import base export: %s", resp.short())
+		return nil, fmt.Errorf("import base export: %s", resp.short())
 	}
-	return strings.TrimSpace(strings.SplitN(resp.Body, "\n", 2)[0]), nil
+	var lines []string
+	for _, ln := range strings.Split(resp.Body, "\n") {
+		if ln = strings.TrimSpace(ln); ln != "" {
+			lines = append(lines, ln)
+		}
+	}
+	if len(lines) != len(wantTypes) {
+		return nil, fmt.Errorf("import base export: %d logs, want %d: %s", len(lines), len(wantTypes), resp.short())
+	}
+	for i, ln := range lines {
+		if t, _ := jat(decode(ln), "type").(string); t != wantTypes[i] {
+			return nil, fmt.Errorf("import base export: log %d has type %q, want %q", i, t, wantTypes[i])
+		}
+	}
+	return lines, nil
+}
+
+func c28ImportBases(boot *pgsim.DB) (b c28Bases, err error) {
+	create := post("/v2/c28/transactions", `{"postings":[{"source":"world","destination":"dst","asset":"USD","amount":10}],"timestamp":"2023-01-01T00:00:00Z"}`)
+	if b.Single, err = c28Export(boot, []string{"NEW_TRANSACTION"}, create); err != nil {
+		return
+	}
+	if b.TwoPostings, err = c28Export(boot, []string{"NEW_TRANSACTION"}, post("/v2/c28/transactions", `{"postings":[{"source":"world","destination":"dst","asset":"USD","amount":10},{"source":"world","destination":"dst2","asset":"EUR","amount":5}],"timestamp":"2023-01-01T00:00:00Z"}`)); err != nil {
+		return
+	}
+	b.Revert, err = c28Export(boot, []string{"NEW_TRANSACTION", "REVERTED_TRANSACTION"}, create, post("/v2/c28/transactions/1/revert", ``))
+	return
 }
 
 func c28Worker(w *workerSpec) int {
@@ -443,9 +666,13 @@ func c28Worker(w *workerSpec) int {
 	})
 }
 
+// c28NoAccept lists the (path, origin) pairs for which NO menu value can be accepted, with
+// the reason (a fact about the input space, not about the verdict). c28Cases fills it.
+var c28NoAccept = map[string]string{}
+
 var c28Trace func(sig, what string)
 
-const c28Quick, c28Thorough = 90 * time.Second, 5 * time.Minute
+const c28Quick, c28Thorough = 4 * time.Minute, 10 * time.Minute
 
 func runC28(r *ev.Run) (ev.Coverage, []string) {
 	assumptions := []string{pgsimAssumption, httpAssumption, "process isolation: cases run in child processes (an import may kill the process)"}
@@ -454,12 +681,12 @@ func runC28(r *ev.Run) (ev.Coverage, []string) {
 		r.EngineError("boot: " + err.Error())
 		return nil, assumptions
 	}
-	base, err := c28ImportBase(boot)
+	bases, err := c28ImportBases(boot)
 	if err != nil {
 		r.EngineError(err.Error())
 		return nil, assumptions
 	}
-	cases, err := c28Cases(base)
+	cases, err := c28Cases(bases)
 	if err != nil {
 		r.EngineError(err.Error())
 		return nil, assumptions
@@ -468,6 +695,11 @@ func runC28(r *ev.Run) (ev.Coverage, []string) {
 	distinct := map[string]bool{}
 	samples := ev.NewSamples(6)
 	var evals int64
+	type c28viol struct {
+		i int
+		v violRec
+	}
+	var viols []c28viol
 	deadline := time.Now().Add(budgetOf(r, c28Quick, c28Thorough) - r.Elapsed())
 	exhaustive, err := runIsolated("C28", len(cases), func(i int) []byte {
 		b, _ := json.Marshal(&cases[i])
@@ -479,7 +711,7 @@ func runC28(r *ev.Run) (ev.Coverage, []string) {
 			// the write did not succeed (there is no answer at all); the crash itself is C38's
 			// business, but what the dead process left behind cannot be inspected here
 			counts["process_crash"]++
-			r.Note(fmt.Sprintf("%s: the server process died: %s", c.sig(), res.Stderr))
+			r.Note(fmt.Sprintf("%s: the server process died: %s", c.id(), res.Stderr))
 			return
 		}
 		if res.Engine != "" {
@@ -497,41 +729,71 @@ func runC28(r *ev.Run) (ev.Coverage, []string) {
 			if c28Trace != nil {
 				c28Trace(v.Sig, v.What)
 			}
-			r.Violation(v.Sig, v.What, v.Replay)
+			viols = append(viols, c28viol{res.I, v})
 		}
 	})
+	// only the first violation of a signature is kept: make "first" mean the first case of
+	// the menu, not the first child process to answer
+	sort.SliceStable(viols, func(i, j int) bool { return viols[i].i < viols[j].i })
+	for _, v := range viols {
+		r.Violation(v.v.Sig, v.v.What, v.v.Replay)
+	}
 	if err != nil {
 		r.EngineError("isolation: " + err.Error())
 	}
-	byPath := map[string]int64{}
-	for k, v := range counts {
-		if strings.HasPrefix(k, "accepted:") {
-			byPath[k[9:]] = v
-		}
+	complete := exhaustive // every case was run
+	if counts["process_crash"] > 0 {
+		exhaustive = false // what a dead process stored could not be inspected
 	}
-	if exhaustive && r.ViolationCount() == 0 && !r.HasEngineError() {
+	byPath := map[string]int64{}
+	byFamily := map[string]string{} // path:family -> "accepted/rejected"
+	for i := range cases {
+		c := &cases[i]
+		byPath[c.Path] = counts["accepted:"+c.Path]
+		k := c.Path + ":" + c.Family
+		byFamily[k] = fmt.Sprintf("%d/%d", counts["accepted:"+k], counts["rejected:"+k])
+	}
+	// Vacuity guards. They hold on a complete run whatever the verdict: every menu has at
+	// least one well-formed and one ill-formed value, so through every path and for every
+	// origin of the value the ledger must have accepted something (the oracle then looked at
+	// what was stored) and refused something (the validation under test was reached).
+	if complete && !r.HasEngineError() {
 		if counts["accepted"] == 0 || counts["rejected"] == 0 || counts["postings_inspected"] == 0 {
 			r.EngineError(fmt.Sprintf("vacuous: accepted=%d rejected=%d postings=%d", counts["accepted"], counts["rejected"], counts["postings_inspected"]))
 		}
-		for _, p := range []string{"machine", "interpreter", "v1-machine", "template-machine", "template-interpreter", "postings-v2", "postings-v1", "postings-bulk", "import-forged-hash", "import-no-hash-ledger"} {
-			if byPath[p] == 0 {
-				r.EngineError("vacuous: no successful write through path " + p)
+		var keys []string
+		for k := range byFamily {
+			keys = append(keys, k)
+		}
+		sort.Strings(keys)
+		for _, k := range keys {
+			acc, rej := counts["accepted:"+k], counts["rejected:"+k]
+			if c28NoAccept[k] != "" {
+				if acc != 0 {
+					r.EngineError(fmt.Sprintf("vacuity table out of date: %s accepted %d cases although: %s", k, acc, c28NoAccept[k]))
+				}
+			} else if acc == 0 {
+				r.EngineError("vacuous: no successful write for " + k + " (the oracle never inspected a posting created that way)")
+			}
+			if rej == 0 {
+				r.EngineError("vacuous: no refused write for " + k + " (no ill-formed value reached the validation)")
 			}
 		}
 	}
 	cov := ev.Coverage{
-		"evaluations":         evals,
-		"distinct_nontrivial": counts["accepted"],
-		"successful_writes":   counts["accepted"],
-		"rejected_writes":     counts["rejected"],
-		"answered_5xx":        counts["5xx"],
-		"process_crashes":     counts["process_crash"],
-		"postings_inspected":  counts["postings_inspected"],
-		"accepted_by_path":    byPath,
-		"cases":               len(cases),
-		"exhaustive":          exhaustive,
-		"samples":             samples.List(),
-		"rule":                "every value of the asset / account / monetary / amount menus (edges of the lexer rules ASSET and ACCOUNT and of the pkg/assets and pkg/accounts patterns) through: script literals, script variables, meta()-sourced variables (the stored metadata value being the ill-formed text), on the machine, the experimental interpreter and the v1 API; transaction templates of a schema (both runtimes); the postings path (v2, v1, bulk); import of a one-log stream with an ill-formed posting (stale hash, recomputed hash, ledger without hashed logs). After every 2xx answer every transaction of every ledger (ListTransactions following cursors, tables transactions and moves by raw SQL) must only contain postings matching the patterns with a non-negative integer amount; distinct_nontrivial = cases whose write succeeded",
+		"evaluations":                          evals,
+		"distinct_nontrivial":                  counts["accepted"],
+		"successful_writes":                    counts["accepted"],
+		"rejected_writes":                      counts["rejected"],
+		"answered_5xx":                         counts["5xx"],
+		"process_crashes":                      counts["process_crash"],
+		"postings_inspected":                   counts["postings_inspected"],
+		"accepted_by_path":                     byPath,
+		"accepted_rejected_by_path_and_origin": byFamily,
+		"cases":                                len(cases),
+		"exhaustive":                           exhaustive,
+		"samples":                              samples.List(),
+		"rule":                                 "every value of the asset / account / monetary / amount menus (edges of the lexer rules ASSET and ACCOUNT and of the pkg/assets and pkg/accounts patterns) through: script literals, script variables, meta()-sourced variables (the stored metadata value being the ill-formed text), amounts computed by monetary arithmetic, on the machine, the experimental interpreter and the v1 API; transaction templates of a schema (both runtimes); the postings path (v2, v1, bulk; the ill-formed posting first or second); import of a log stream whose NEW_TRANSACTION posting (only / second of two) or REVERTED_TRANSACTION reverting posting is ill-formed (stale hash, recomputed hash chain, ledger without hashed logs). After every 2xx answer every transaction of every ledger (ListTransactions following cursors, tables transactions and moves by raw SQL) must only contain postings matching the patterns with a non-negative integer amount; a 2xx write that leaves no posting to inspect is an engine error; per (path, origin of the value) at least one write must be accepted and one refused; distinct_nontrivial = cases whose write succeeded; quick and thorough run the same finite menu (the tiers differ in time budget only)",
 	}
 	return cov, assumptions
 }
